@@ -6,8 +6,10 @@ W=$1
 cd "$W" || exit 2
 export CARGO_NET_OFFLINE=true
 test -s patch.diff || git diff -- src > patch.diff
+test -f tests/seeded_demo.rs && mv tests/seeded_demo.rs /tmp/seeded_demo.$$.rs
 out=$(cargo test --offline --no-fail-fast 2>&1)
-failed=$(echo "$out" | grep -E "^test .* FAILED|error: test failed" | grep -v seeded_demo | head -5)
+test -f /tmp/seeded_demo.$$.rs && mv /tmp/seeded_demo.$$.rs tests/seeded_demo.rs
+failed=$(echo "$out" | grep -E "^test .* FAILED|error: test failed|^warning" | head -5)
 nres=$(echo "$out" | grep -c "^test result: ok")
 echo "step1 existing-suite-with-change: ok_binaries=$nres other_failures=[${failed}]"
 if [ -f tests/seeded_demo.rs ]; then
